@@ -146,6 +146,10 @@ def check(tier: str, seed: int, t0: float, build: core.BuildStatus) -> int:
                 continue
             if kind.startswith("md_collection") and be != "atlas":
                 continue
+            if kind.startswith("md_cmsaod_") and be != "cms_aod":
+                continue
+            if kind.startswith("md_cmsminiaod_") and be != "cms_miniaod":
+                continue
             if kind.startswith("md_job") and be != "atlas":
                 continue  # job scripts are only rendered (and checked) by the ATLAS executor
             for _ in range(n_graft):
